@@ -69,9 +69,9 @@ def Tree.isNil : Tree → Bool | .nil => true | _ => false
 def Tree.isTyped : Tree → Bool | .typed .. => true | _ => false
 def Tree.isPre : Tree → Bool | .pre .. => true | _ => false
 /-- KeySpecifier of a lookup (3.1 [54]): NCName | IntegerLiteral | ParenthesizedExpr
-(operand kinds 0 and 7 are NCNames — 7: a name that spells an operator keyword —, 1 integers) -/
+| "*" (operand kinds 0 and 7 are NCNames — 7: a name that spells an operator keyword —, 1 integers, 6 the `*` key) -/
 def Tree.isKeySpec : Tree → Bool
-  | .atom k _ => k == 0 || k == 1 || k == 7
+  | .atom k _ => k == 0 || k == 1 || k == 7 || k == 6
   | .group .. => true
   | _ => false
 
@@ -233,6 +233,8 @@ structure Gram where
   pre : Nat → Option Nat
   /-- closer and "may be empty" if the symbol opens a parenthesised primary expression -/
   grp : Nat → Option (Nat × Bool)
+  /-- the symbol is the unary lookup operator `?` (3.1 [76] UnaryLookup ::= "?" KeySpecifier, a PrimaryExpr) -/
+  ulk : Nat → Bool
   /-- kind of level `j` -/
   lkind : Nat → Option LKind
   /-- level of the primary expressions = number of operator levels -/
@@ -253,7 +255,8 @@ def kindOf (emptyParens : Bool) (s : String) : LKind → Option Kind
   | .prefix => none
 
 /-- `gramOf levels emptyParens syms`: operator index `o` stands for symbol `syms[o]`.
-`emptyParens`: `()` is an expression (2.0+). -/
+`emptyParens`: `()` is an expression (2.0+).  The unary lookup exists exactly in the versions whose postfix level
+has the lookup operator `?` (3.1). -/
 def gramOf (levels : List Level) (emptyParens : Bool) (syms : List String) : Gram where
   led o := match syms[o]? with
     | some s => match findLevel false s levels 0 with
@@ -266,6 +269,8 @@ def gramOf (levels : List Level) (emptyParens : Bool) (syms : List String) : Gra
   grp g := match syms[g]? with
     | some "(" => some (0, emptyParens)
     | _ => none
+  ulk o := syms[o]? == some "?" && levels.any (fun L => L.kind == .postfix && L.ops.contains "?") &&
+    (findLevel true "?" levels 0).isNone
   lkind j := (levels[j]?).map (·.kind)
   top := levels.length
 
@@ -274,7 +279,7 @@ def lvl (G : Gram) : Tree → Nat
   | .nil => G.top
   | .atom _ _ => G.top
   | .group _ _ _ => G.top
-  | .pre p _ => ((G.pre p).getD 0)
+  | .pre p _ => if G.ulk p then G.top else ((G.pre p).getD 0)
   | .bin o _ _ => ((G.led o).map (·.1)).getD 0
   | .typed o _ _ => ((G.led o).map (·.1)).getD 0
   | .post o _ _ _ => ((G.led o).map (·.1)).getD 0
@@ -285,7 +290,8 @@ Well-formedness of every node with respect to the level table.
 `strict = true` is the EBNF: at a node of level `j`
 * left-associative operator: left operand from level `j`, right operand from level `j+1`;
 * optional-once (`none`) operator: both operands from level `j+1`;
-* prefix operator: operand from level `j` (prefix operators nest);
+* prefix operator: operand from level `j` (prefix operators nest); the unary lookup `?` is a primary whose
+  operand is a KeySpecifier;
 * typed operator (`instance of` …): operand from level `j+1`;
 * postfix bracket / lookup: operand from level `j`, content a full expression (or empty where allowed),
   a lookup key is a name, an integer or a parenthesised expression.
@@ -305,9 +311,10 @@ def wf (strict : Bool) (G : Gram) : Tree → Bool
       | some (c', eo) => c == c' && ((e.isNil && eo) || wf strict G e)
       | none => false
   | .pre p x =>
-      match G.pre p with
-      | some j => (decide (j ≤ lvl G x) || (!strict && x.isPre)) && wf strict G x
-      | none => false
+      if G.ulk p then x.isKeySpec && wf strict G x
+      else match G.pre p with
+        | some j => (decide (j ≤ lvl G x) || (!strict && x.isPre)) && wf strict G x
+        | none => false
   | .bin o l r =>
       match G.led o with
       | some (j, .left) =>
@@ -348,6 +355,11 @@ def ebnf (G : Gram) : Nat → Nat → List Tok → Option (Tree × List Tok)
       match toks with
       | .atom a n :: rest => some (.atom a n, rest)
       | .op g :: rest =>
+        if G.ulk g then
+          match ebnf G f k rest with
+          | some (x, rest') => if x.isKeySpec then some (.pre g x, rest') else none
+          | none => none
+        else
         match G.grp g with
         | some (c, eo) =>
           match rest with
@@ -427,7 +439,7 @@ def laxFree (G : Gram) : Tree → Bool
   | .atom _ _ => true
   | .group _ _ e => laxFree G e
   | .pre p x =>
-      (match G.pre p with | some j => decide (j ≤ lvl G x) | none => true) && laxFree G x
+      (if G.ulk p then true else match G.pre p with | some j => decide (j ≤ lvl G x) | none => true) && laxFree G x
   | .bin o l r =>
       (match G.led o with
        | some (j, .left) => decide (j ≤ lvl G l) && decide (j + 1 ≤ lvl G r)
